@@ -89,6 +89,11 @@ def len_probes(mode):
     return jobs
 
 
+def api_probes(tag, api, srcs, confirm, bounds=(("1M", 1 << 20), ("64M", 1 << 26), ("4G", (1 << 32) - 1))):
+    return [ProbeJob("lenprobe-%s-upto%s" % (tag, b), "c01_len.c", {"API": api, "LENMAX": "%dull" % lmax}, srcs, confirm,
+                     facet="length-truncation probe (symbolic length up to %s)" % b) for (b, lmax) in bounds]
+
+
 # ---- C01 -------------------------------------------------------------------------------
 def rt_window(tier):
     # the encrypt+decrypt round trip doubles the formula and gives no verdict within 15 min beyond ~1000 bytes on any back
@@ -362,6 +367,8 @@ def c10(tier):
         jobs.append(hash_job("hash-n%d-split%d-%d" % (n, c1, c2), {"N": n, "C1": c1, "C2": c2}, "conformance-3-updates", tier, n=n))
     for n in (0, 1, 15, 16, 17, 33):
         jobs.append(hash_job("hash-oneshot-n%d" % n, {"N": n, "C1": 0, "C2": 0, "ONESHOT": None}, "one-shot tinyjambu_hash", tier, n=n))
+    jobs += api_probes("hash", 2, LIBC + PERM_UF + HASH_REAL + CLEAN,
+                       (os.path.join(HARN, "c10_hash.c"), {"C1": 0, "C2": 0}, HASH_NATIVE + HASH_REAL, "N"))
     jobs += align_variants(jobs, lambda j: j.name in ("hash-n16", "hash-n17", "hash-n33", "hash-n48", "hash-n70", "hash-n5-split1-2", "hash-n33-split7-9",
                                                       "hash-n70-split15-17", "hash-oneshot-n17", "hash-oneshot-n33"))
     meta = {
@@ -462,6 +469,9 @@ def c12(tier):
         jobs.append(cut2("hmac-stream-k%d-m%d-c%d" % (k, m, c1), "c12_hmac.c", {"VARIANT": 1, "KEYLEN": k, "MSGLEN": m, "C1": c1}, HMAC_SRC, "init/update/update/finalize", tier))
     for (k, m, pre) in [(32, 5, 3), (65, 2, 20), (0, 0, 1), (64, 17, 64)] + ([(200, 8, 5), (33, 33, 33)] if tier != "quick" else []):
         jobs.append(cut2("hmac-reinit-k%d-m%d-pre%d" % (k, m, pre), "c12_hmac.c", {"VARIANT": 2, "KEYLEN": k, "MSGLEN": m, "PRE": pre, "C1": m // 2}, HMAC_SRC, "reinit after a partial message", tier))
+    jobs += api_probes("hmac", 3, LIBC + ABSFOLD + CLEAN + HMAC_SRC,
+                       (os.path.join(HARN, "c12_hmac.c"), {"VARIANT": 0, "KEYLEN": 5, "VERIF_CUT2": None}, CUT2_NATIVE + HMAC_SRC, "MSGLEN"),
+                       bounds=(("1M", 1 << 20), ("4G", (1 << 32) - 1)))
     for (k, m) in ((32, 5), (64, 9), (65, 3), (100, 20)):
         jobs.append(cut2("hmac-out-over-key-oneshot-k%d-m%d" % (k, m), "c12_hmac.c", {"VARIANT": 3, "KEYLEN": k, "MSGLEN": m}, HMAC_SRC, "MAC written over the key buffer (out == key)", tier))
         jobs.append(cut2("hmac-out-over-key-stream-k%d-m%d" % (k, m), "c12_hmac.c", {"VARIANT": 4, "KEYLEN": k, "MSGLEN": m}, HMAC_SRC, "MAC written over the key buffer (out == key)", tier))
@@ -508,6 +518,9 @@ def c13(tier):
     for (c, p, rq) in ((2, 7, 256), (100, 31, 260), (254, 22, 257)) + (((2, 0, 512), (3, 16, 1024)) if tier != "quick" else ()):
         jobs.append(cut2fold("hkdf-step-n%d-posn%d-req%d" % (c, p, rq), "c13_hkdf.c", {"VARIANT": 2, "COUNTER": c, "POSN": p, "REQ": rq, "INFOLEN": 3}, src,
                              "inductive step of hkdf_expand, long request", tier, unwind=rq + 80, timeout=1500))
+    jobs += api_probes("hkdf", 4, LIBC + ABSFOLD + CLEAN + HMAC_SRC + S("tinyjambu-hkdf.c"),
+                       (os.path.join(HARN, "c13_hkdf.c"), {"VARIANT": 1, "E2": 0, "E3": 0, "KEYLEN": 8, "SALTLEN": 8, "INFOLEN": 4, "VERIF_CUT2": None},
+                        CUT2_NATIVE + HMAC_SRC, "E1"), bounds=(("8160", 8160),))
     for k in (0, 16, 65):
         jobs.append(cut2("hkdf-emptysalt-k%d" % k, "c13_hkdf.c", {"VARIANT": 4, "KEYLEN": k}, src, "empty salt == 32 zero bytes", tier))
     jobs.append(cut2("hkdf-wrapper-contract", "c13_hkdf.c", {"VARIANT": 5}, [x for x in []], "one-shot wrapper call contract (all lengths symbolic)", tier,
@@ -571,6 +584,9 @@ def c14(tier):
                 facet="outer loop with F stubbed: > 255 blocks",
                 instrument=[(S("tinyjambu-pbkdf2.c")[0], ["tinyjambu_pbkdf2_f"])], instrument_defs=["-Dstatic="])
         jobs.append(j)
+    jobs += api_probes("pbkdf2", 5, LIBC + ABSFOLD + CLEAN + HMAC_SRC + S("tinyjambu-pbkdf2.c"),
+                       (os.path.join(HARN, "c14_pbkdf2.c"), {"VARIANT": 1, "COUNT": 1, "PWLEN": 5, "SALTLEN": 3, "VERIF_CUT2": None},
+                        CUT2_NATIVE + HMAC_SRC, "OUTLEN"), bounds=(("1M", 1 << 20), ("4G", (1 << 32) - 1)))
     meta = {
         "functions": ["tinyjambu_pbkdf2", "tinyjambu_pbkdf2_f (static; reached by #including the TU)", "tinyjambu_hmac_* (real code)"],
         "units": ["src/tinyjambu-pbkdf2.c", "src/tinyjambu-hmac.c", "src/backend/tinyjambu-clean.c"],
@@ -623,6 +639,9 @@ def c15(tier):
         for cl in ((0, 3, 8) if tier == "quick" else range(0, 9)):
             jobs.append(prng("init-custom%d-k%d" % (cl, k), {"VARIANT": 4, "CUSTOMLEN": cl, "KDELIV": k}, "init_user on arbitrary prior contents", tier))
     jobs.append(prng("setlimit", {"VARIANT": 5}, "set_reseed_limit(symbolic)", tier))
+    jobs += api_probes("prng", 6, LIBC + ABSFOLD + CLEAN + S("tinyjambu-prng.c", "random/tinyjambu-trng-dev-random.c"),
+                       (os.path.join(HARN, "c15_prng.c"), {"VARIANT": 1, "CTR": 1, "LIMIT": 32768, "KDELIV": 32, "VERIF_CUT2": None}, CUT2_NATIVE, "SIZE"),
+                       bounds=(("1M", (1 << 20) - 64), ("4G", (1 << 32) - 1)))
     jobs.append(prng("dep-feed", {"VARIANT": 7, "OP": 0, "LEN": 4}, "new state depends on the old state", tier))
     jobs.append(prng("dep-reseed", {"VARIANT": 7, "OP": 1}, "new state depends on the old state", tier))
     meta = dict(PRNG_META)
